@@ -1652,9 +1652,13 @@ func (c *Compiler) compileFor(node *ast.For) error {
 	}()
 
 	// Compile the init statement if present
-	if node.Init() != nil {
-		if err := c.compile(node.Init()); err != nil {
+	if init := node.Init(); init != nil {
+		if err := c.compile(init); err != nil {
 			return err
+		}
+		// An expression used as the init statement leaves a value behind
+		if init.IsExpression() {
+			c.emit(op.PopTop)
 		}
 	}
 
